@@ -41,6 +41,7 @@ def strategy(tier):
         'seed': st.sampled_from([None, None, 0, 1, 2, 3]),
         'form': st.sampled_from(['list', 'list', 'dict']),
         'avoid_known': st.sampled_from([True] * 6 + [False]),
+        'zero_keys': G.zero_keys_strategy(),
     }).map(c03.steer)
 
 
